@@ -2,6 +2,7 @@ package main
 
 import (
 	"fmt"
+	"sort"
 	"strings"
 
 	"github.com/jessevdk/go-flags/simrt"
@@ -164,6 +165,10 @@ func (propC15) Gen(r *Rng, idx int, tier string) *Scenario {
 			}
 		}
 	}
+	if wr.Chance(1, 4) {
+		// the configuration file exists already and holds sections of other programs
+		sc.World.Files = map[string]BStr{"conf/app.ini": "[other program]\nx = 1\n[Another Tool]\ny = 2\n[zzz.settings]\nk = v\n[tool-b]\nq = 4\n"}
+	}
 	or := r.Fork("ops")
 	nops := or.Range(2, 6)
 	for i := 0; i < nops; i++ {
@@ -267,6 +272,15 @@ func c15Observable(o *Outcome) []string {
 		)
 	}
 	out = append(out, "completions="+mustJSON(o.Completions))
+	// what the history left on the disk (INI files written with WriteFile)
+	var names []string
+	for n := range o.Files {
+		names = append(names, n)
+	}
+	sort.Strings(names)
+	for _, n := range names {
+		out = append(out, "file:"+n+"="+string(o.Files[n]))
+	}
 	return out
 }
 
@@ -607,7 +621,15 @@ func (propC15) Judge(sc *Scenario) *Verdict {
 			if a.Skipped || b.Skipped || a.Panic != "" || b.Panic != "" || a.Budget || b.Budget || a.Inconclusive || b.Inconclusive {
 				break
 			}
-			if mustJSON(a.Comp) != mustJSON(b.Comp) {
+			items := func(cs []BStr) string {
+				// the words offered; their descriptions may show current values, as the help does
+				var ws []string
+				for _, c := range cs {
+					ws = append(ws, strings.SplitN(string(c), "\t", 2)[0])
+				}
+				return mustJSON(ws)
+			}
+			if items(a.Comp) != items(b.Comp) {
 				v.OK = false
 				v.Class = "c15:completion-depends-on-earlier-calls"
 				v.Msg = fmt.Sprintf("completion request %q (operation %d): the list differs from the one a parser that has served nothing before gives for the same words, environment and stored values:\n  in the history: %s\n  fresh parser:   %s", strs(op.Argv), k, clip(mustJSON(a.Comp), 600), clip(mustJSON(b.Comp), 600))
